@@ -54,7 +54,7 @@ func (a *AspectEliminationHeuristic) Identifier() string {
 }
 
 func (a *AspectEliminationHeuristic) MethodParameters() interface{} {
-	return AspectEliminationHeuristic{}
+	return AspectEliminationHeuristicParams{}
 }
 
 func (a *AspectEliminationHeuristic) ParseParams(dm *model.DecisionMaker) interface{} {
